@@ -4,13 +4,20 @@
 //
 // One session = one underlying connection and the handles over it, driven one call at a time:
 //
-//	kind fake : newSharedPacketConn over a counting fake muxedPacketConn (counts Close calls)
+//	kind fake : newSharedPacketConn over a counting fake muxedPacketConn (counts Close calls; honours
+//	            SetWriteDeadline like a real socket: a write under a past deadline fails with the deadline error)
 //	kind udp  : handles returned by UDPMuxDefault.GetConn for one ufrag (underlying *udpMuxedConn)
+//	kind udpap: the same over an AddrPort-capable shared socket: the handles are *sharedAddrPortConn and
+//	            `writeap h` goes through sharedAddrPortConn.WriteToAddrPort (on the other kinds = write)
 //	kind tcp  : handles returned by TCPMuxDefault.GetConnByUfrag (underlying *tcpPacketConn, one TCP
 //	            connection — a net.Pipe — attached so that writes and reads have somewhere to go)
 //
 // Reads that block are parked in a goroutine and reported `pending`; they are collected when the
 // handle's Close (or a feed) releases them.
+//
+// Deadline ops on a handle: setrd (SetReadDeadline), setwd (SetWriteDeadline), setd (SetDeadline) with
+// past|zero, and `abort h` = the sequence candidateBase.abortIO performs on the candidate's handle
+// (SetDeadline(time.Now()), abortWrite if the handle is a writeAborter, Close) while siblings stay open.
 package ice
 
 import (
@@ -23,6 +30,7 @@ import (
 	"net/netip"
 	"os"
 	"runtime"
+	"strings"
 	"sync"
 	"sync/atomic"
 	"time"
@@ -37,6 +45,7 @@ type vShFake struct {
 	parked int
 	wake   chan struct{}
 	setwd  int
+	wdPast bool // write deadline register: a time that has passed
 }
 
 func newVShFake() *vShFake { return &vShFake{wake: make(chan struct{})} }
@@ -88,6 +97,9 @@ func (f *vShFake) WriteTo(b []byte, _ net.Addr) (int, error) {
 	if f.closes > 0 {
 		return 0, io.ErrClosedPipe
 	}
+	if f.wdPast {
+		return 0, os.ErrDeadlineExceeded
+	}
 	return len(b), nil
 }
 func (f *vShFake) Close() error {
@@ -101,9 +113,10 @@ func (f *vShFake) Close() error {
 func (f *vShFake) LocalAddr() net.Addr             { return &net.UDPAddr{IP: net.IPv4(10, 0, 0, 1), Port: 5000} }
 func (f *vShFake) SetDeadline(time.Time) error     { return nil }
 func (f *vShFake) SetReadDeadline(time.Time) error { return nil }
-func (f *vShFake) SetWriteDeadline(time.Time) error {
+func (f *vShFake) SetWriteDeadline(t time.Time) error {
 	f.mu.Lock()
 	f.setwd++
+	f.wdPast = !t.IsZero() && !t.After(time.Now())
 	f.mu.Unlock()
 	return nil
 }
@@ -126,6 +139,26 @@ func (s *vShSock) SetDeadline(time.Time) error               { return nil }
 func (s *vShSock) SetReadDeadline(time.Time) error           { return nil }
 func (s *vShSock) SetWriteDeadline(time.Time) error          { return nil }
 
+// vShSockAP: the AddrPort-capable variant (asAddrPortReaderWriter accepts the interface).
+type vShSockAP struct{ *vShSock }
+
+func (s vShSockAP) WriteToAddrPort(b []byte, _ netip.AddrPort) (int, error) { return len(b), nil }
+func (s vShSockAP) ReadFromAddrPort(b []byte) (int, netip.AddrPort, error) {
+	<-s.closedCh
+	return 0, netip.AddrPort{}, net.ErrClosed
+}
+
+// vShSP: the sharedPacketConn of a handle (a *sharedAddrPortConn embeds one).
+func vShSP(c net.PacketConn) (*sharedPacketConn, bool) {
+	switch h := c.(type) {
+	case *sharedPacketConn:
+		return h, true
+	case *sharedAddrPortConn:
+		return h.sharedPacketConn, true
+	}
+	return nil, false
+}
+
 type vShListener struct {
 	closedCh chan struct{}
 	once     sync.Once
@@ -146,6 +179,8 @@ type vShSession struct {
 	handles []net.PacketConn
 	pend    [][]*vShRead // parked reads per handle
 	rdPast  []bool       // the harness set a past read deadline on this handle
+	wdOwn   []bool       // this handle last set a past write deadline itself (statistics only)
+	ap      bool         // kind udpap
 
 	fake *vShFake
 	refs atomic.Int32
@@ -198,9 +233,14 @@ func vShNew(kind string) (*vShSession, string) {
 	switch kind {
 	case "fake":
 		s.fake = newVShFake()
-	case "udp":
+	case "udp", "udpap":
 		s.usock = &vShSock{closedCh: make(chan struct{})}
-		s.umux = NewUDPMuxDefault(UDPMuxParams{UDPConn: s.usock})
+		var conn net.PacketConn = s.usock
+		if kind == "udpap" {
+			s.kind, s.ap = "udp", true
+			conn = vShSockAP{s.usock}
+		}
+		s.umux = NewUDPMuxDefault(UDPMuxParams{UDPConn: conn})
 	case "tcp":
 		s.tmux = NewTCPMuxDefault(TCPMuxParams{Listener: &vShListener{closedCh: make(chan struct{})}, ReadBufferSize: 64})
 	default:
@@ -219,9 +259,9 @@ func (s *vShSession) open() string {
 		if err != nil {
 			return vShClass(err)
 		}
-		sp, ok := c.(*sharedPacketConn)
-		if !ok {
-			return "err:other not-a-sharedPacketConn"
+		sp, ok := vShSP(c)
+		if _, isAP := c.(*sharedAddrPortConn); !ok || isAP != s.ap {
+			return "err:other not-the-expected-handle-type"
 		}
 		uc, _ := sp.underlying.(*udpMuxedConn)
 		if s.uconn == nil {
@@ -264,6 +304,7 @@ func (s *vShSession) open() string {
 	s.handles = append(s.handles, h)
 	s.pend = append(s.pend, nil)
 	s.rdPast = append(s.rdPast, false)
+	s.wdOwn = append(s.wdOwn, false)
 	return fmt.Sprintf("h%d", len(s.handles)-1)
 }
 
@@ -335,7 +376,7 @@ func (s *vShSession) totalPending() int {
 }
 
 func (s *vShSession) handleOpen(h int) bool {
-	sp, ok := s.handles[h].(*sharedPacketConn)
+	sp, ok := vShSP(s.handles[h])
 	return ok && sp.ctx.Err() == nil
 }
 
@@ -346,6 +387,25 @@ func vShWait(ch chan string, d time.Duration) (string, bool) {
 	case <-time.After(d):
 		return "", false
 	}
+}
+
+// vShHangs counts calls that did not return; the first one is waited for 10 s, later ones less and less
+// (a broken tree makes every such call hang; the verdict is reached at the first).
+var vShHangs int
+
+func vShWaitP(ch chan string) (string, bool) {
+	d := 10 * time.Second
+	switch {
+	case vShHangs >= 10:
+		d = 200 * time.Millisecond
+	case vShHangs >= 1:
+		d = time.Second
+	}
+	r, ok := vShWait(ch, d)
+	if !ok {
+		vShHangs++
+	}
+	return r, ok
 }
 
 func (s *vShSession) read(h int) string {
@@ -364,7 +424,7 @@ func (s *vShSession) read(h int) string {
 	if !willBlock {
 		ch := make(chan string, 1)
 		go func() { ch <- doRead() }()
-		if r, ok := vShWait(ch, 10*time.Second); ok {
+		if r, ok := vShWaitP(ch); ok {
 			return r
 		}
 		return "hang"
@@ -399,7 +459,7 @@ func (s *vShSession) closeH(h int) string {
 	}
 	rel, odd := 0, ""
 	for _, rd := range s.pend[h] {
-		r, ok := vShWait(rd.res, 10*time.Second)
+		r, ok := vShWaitP(rd.res)
 		switch {
 		case !ok:
 			odd += " hang"
@@ -411,6 +471,41 @@ func (s *vShSession) closeH(h int) string {
 	}
 	s.pend[h] = nil
 	return fmt.Sprintf("ok u=%d rel=%d%s", s.uCloses(), rel, odd)
+}
+
+// abortH performs on handle h what candidateBase.abortIO performs on the candidate's conn (first error
+// is reported, as abortIO's closeErr): SetDeadline(time.Now()), abortWrite, Close.
+func (s *vShSession) abortH(h int) string {
+	hc := s.handles[h]
+	var first error
+	if err := hc.SetDeadline(time.Now()); err != nil {
+		first = err
+	} else {
+		s.rdPast[h] = true
+		s.wdOwn[h] = true
+	}
+	if a, ok := hc.(writeAborter); ok {
+		if err := a.abortWrite(); err != nil && first == nil {
+			first = err
+		}
+	}
+	if err := hc.Close(); err != nil && first == nil {
+		first = err
+	}
+	rel, odd := 0, ""
+	for _, rd := range s.pend[h] {
+		r, ok := vShWaitP(rd.res)
+		switch {
+		case !ok:
+			odd += " hang"
+		case r == "err:closed":
+			rel++
+		default:
+			odd += " odd:" + r
+		}
+	}
+	s.pend[h] = nil
+	return fmt.Sprintf("%s u=%d rel=%d%s", vShClass(first), s.uCloses(), rel, odd)
 }
 
 func (s *vShSession) feed() string {
@@ -444,7 +539,11 @@ func (s *vShSession) feed() string {
 			return vShClass(err)
 		}
 		if s.totalPending() == 0 {
-			for i := 0; len(s.tconn.recvChan) <= before && i < 100000; i++ {
+			limit := 100000
+			if vShHangs > 0 { // a read that did not return is still parked and may take the datagram
+				limit = 2000
+			}
+			for i := 0; len(s.tconn.recvChan) <= before && i < limit; i++ {
 				time.Sleep(50 * time.Microsecond)
 			}
 		}
@@ -452,7 +551,7 @@ func (s *vShSession) feed() string {
 	if s.totalPending() == 1 {
 		for h, p := range s.pend {
 			if len(p) == 1 {
-				r, ok := vShWait(p[0].res, 10*time.Second)
+				r, ok := vShWaitP(p[0].res)
 				s.pend[h] = nil
 				if !ok {
 					return "hang"
@@ -510,12 +609,36 @@ func vShExec(o *vOut, toks []string) string {
 		return s.closeH(h)
 	case "read":
 		return s.read(h)
-	case "write":
-		dst := net.Addr(&net.UDPAddr{IP: net.IPv4(10, 0, 0, 2), Port: 6000})
+	case "write", "writeap":
+		udst := &net.UDPAddr{IP: net.IPv4(10, 0, 0, 2), Port: 6000}
+		dst := net.Addr(udst)
 		if s.kind == "tcp" {
 			dst = s.raddr
 		}
-		_, err := s.handles[h].WriteTo([]byte{9, 9}, dst)
+		var err error
+		if w, ok := s.handles[h].(AddrPortReaderWriter); ok && toks[1] == "writeap" {
+			o.stat("shared.ops.write_through_WriteToAddrPort")
+			_, err = w.WriteToAddrPort([]byte{9, 9}, udst.AddrPort())
+		} else {
+			_, err = s.handles[h].WriteTo([]byte{9, 9}, dst)
+		}
+		if r := vShClass(err); r == "err:timeout" && s.handleOpen(h) {
+			// whose write deadline? (observation only; the verdict is the monitor's)
+			held := false
+			for g := range s.handles {
+				if g != h && s.wdOwn[g] && s.handleOpen(g) {
+					held = true
+				}
+			}
+			switch {
+			case s.wdOwn[h]:
+				o.stat("shared.obs.write_timeout_under_own_deadline")
+			case held:
+				o.stat("shared.obs.write_timeout_under_deadline_held_by_open_sibling(shared by design)")
+			default:
+				o.stat("shared.obs.write_timeout_under_deadline_of_no_open_handle")
+			}
+		}
 		return vShClass(err)
 	case "setrd":
 		if len(toks) != 4 {
@@ -535,8 +658,31 @@ func vShExec(o *vOut, toks []string) string {
 			s.rdPast[h] = toks[3] == "past"
 		}
 		return vShClass(err)
-	case "setwd":
-		return vShClass(s.handles[h].SetWriteDeadline(time.Time{}))
+	case "setwd", "setd":
+		t := time.Time{}
+		switch {
+		case len(toks) == 3 && toks[1] == "setwd":
+		case len(toks) == 4 && toks[3] == "zero":
+		case len(toks) == 4 && toks[3] == "past":
+			t = time.Unix(1, 0)
+		default:
+			return "bad-op"
+		}
+		if toks[1] == "setwd" {
+			err := s.handles[h].SetWriteDeadline(t)
+			if err == nil {
+				s.wdOwn[h] = !t.IsZero()
+			}
+			return vShClass(err)
+		}
+		err := s.handles[h].SetDeadline(t)
+		if err == nil {
+			s.rdPast[h] = !t.IsZero()
+			s.wdOwn[h] = !t.IsZero()
+		}
+		return vShClass(err)
+	case "abort":
+		return s.abortH(h)
 	}
 	return "bad-op"
 }
@@ -544,7 +690,7 @@ func vShExec(o *vOut, toks []string) string {
 // ---- generator -----------------------------------------------------------------------------
 
 func vShGen(o *vOut, r *vRand, thorough bool, args []string, emit func(op string)) {
-	kinds := []string{"fake", "udp", "tcp"}
+	kinds := []string{"fake", "udp", "tcp", "udpap"}
 	// boundary sessions first, for every kind
 	for _, k := range kinds {
 		for _, sess := range [][]string{
@@ -562,6 +708,13 @@ func vShGen(o *vOut, r *vRand, thorough bool, args []string, emit func(op string
 				emit("shared " + op)
 			}
 			o.stat("shared.sessions." + k)
+			if k == "udpap" { // the same session with every write through WriteToAddrPort
+				emit("shared new " + k)
+				for _, op := range sess {
+					emit("shared " + strings.Replace(op, "write ", "writeap ", 1))
+				}
+				o.stat("shared.sessions." + k)
+			}
 		}
 		if k != "tcp" {
 			emit("shared new " + k)
@@ -570,13 +723,36 @@ func vShGen(o *vOut, r *vRand, thorough bool, args []string, emit func(op string
 			}
 		}
 	}
-	n := 150
+	// deadline setters and the abortIO sequence on one handle while a sibling stays open (tcp first: the
+	// underlying *tcpPacketConn forwards write deadlines to the connections shared by all handles)
+	for _, k := range []string{"tcp", "udp", "fake", "udpap"} {
+		for _, sess := range [][]string{
+			{"open", "open", "write 1", "abort 0", "write 1", "feed", "read 1", "read 1", "setwd 1 zero", "write 1", "close 1"},
+			{"open", "abort 0", "write 0", "abort 0"},
+			{"open", "open", "read 0", "read 1", "abort 0", "write 1", "abort 0", "open", "write 2", "close 1", "close 2"},
+			{"open", "open", "open", "abort 1", "write 0", "write 2", "setwd 2 zero", "write 0", "close 0", "close 2"},
+			{"open", "open", "setwd 0 past", "write 0", "write 1", "setwd 1 zero", "write 0", "write 1", "close 0", "write 1", "close 1"},
+			{"open", "open", "setd 0 past", "read 0", "write 0", "write 1", "feed", "read 1", "setd 0 zero", "write 0", "read 0", "close 0", "close 1"},
+			{"open", "open", "setrd 0 past", "read 0", "read 1", "write 0", "write 1", "close 0", "feed", "close 1"},
+			{"open", "open", "setwd 0 past", "close 0", "write 1", "open", "write 2", "close 1", "close 2"},
+			{"open", "open", "setd 1 past", "write 0", "close 1", "write 0", "setwd 0 past", "close 0"},
+			{"open", "open", "open", "setwd 0 past", "setwd 1 past", "close 0", "write 2", "write 1", "setwd 1 zero", "write 1", "close 1", "write 2", "close 2"},
+		} {
+			emit("shared new " + k)
+			for _, op := range sess {
+				emit("shared " + op)
+			}
+			o.stat("shared.sessions." + k)
+			o.stat("shared.sessions.deadline_boundary")
+		}
+	}
+	n := 200
 	if thorough {
-		n = 20000
+		n = 24000
 	}
 	n = vEnvInt("VERIF_SH_N", n)
 	for i := 0; i < n; i++ {
-		k := kinds[i%3]
+		k := kinds[i%len(kinds)]
 		emit("shared new " + k)
 		o.stat("shared.sessions." + k)
 		// the generator's own bookkeeping (only to keep sequences meaningful)
@@ -614,7 +790,15 @@ func vShGen(o *vOut, r *vRand, thorough bool, args []string, emit func(op string
 						h = r.intn(len(open))
 					}
 				}
-				emit(fmt.Sprintf("shared close %d", h))
+				if r.chance(1, 3) { // the handle goes away the way a candidate does
+					emit(fmt.Sprintf("shared abort %d", h))
+					o.stat("shared.ops.abort")
+					if open[h] && nOpen > 1 {
+						o.stat("shared.ops.abort_with_open_sibling")
+					}
+				} else {
+					emit(fmt.Sprintf("shared close %d", h))
+				}
 				if open[h] {
 					open[h] = false
 					nOpen--
@@ -642,7 +826,11 @@ func vShGen(o *vOut, r *vRand, thorough bool, args []string, emit func(op string
 				}
 				o.stat("shared.ops.read")
 			case c < 75:
-				emit(fmt.Sprintf("shared write %d", r.intn(len(open))))
+				if k == "udpap" && r.chance(1, 2) {
+					emit(fmt.Sprintf("shared writeap %d", r.intn(len(open))))
+				} else {
+					emit(fmt.Sprintf("shared write %d", r.intn(len(open))))
+				}
 				o.stat("shared.ops.write")
 			case c < 85:
 				tot := 0
@@ -660,7 +848,7 @@ func vShGen(o *vOut, r *vRand, thorough bool, args []string, emit func(op string
 					}
 				}
 				o.stat("shared.ops.feed")
-			case c < 93:
+			case c < 90:
 				h := r.intn(len(open))
 				v := "zero"
 				if k != "tcp" && r.chance(1, 2) {
@@ -673,8 +861,23 @@ func vShGen(o *vOut, r *vRand, thorough bool, args []string, emit func(op string
 					past[h] = v == "past"
 				}
 				o.stat("shared.ops.setrd")
+			case c < 94:
+				h := r.intn(len(open))
+				v := "zero"
+				if k != "tcp" && r.chance(1, 2) {
+					v = "past"
+				}
+				emit(fmt.Sprintf("shared setd %d %s", h, v))
+				if open[h] {
+					past[h] = v == "past"
+				}
+				o.stat("shared.ops.setd")
 			default:
-				emit(fmt.Sprintf("shared setwd %d", r.intn(len(open))))
+				v := "zero"
+				if r.chance(1, 2) {
+					v = "past"
+				}
+				emit(fmt.Sprintf("shared setwd %d %s", r.intn(len(open)), v))
 				o.stat("shared.ops.setwd")
 			}
 		}
